@@ -222,6 +222,18 @@ def overstrip(ctx, fn):
             if got != want:
                 ctx.viol("C06:overstrip:%s" % ("kept-language-label" if len(got or "") > len(want) else "label-removed"), {"url": u, "options": "default", "want_host": want}, {"out": out, "host": got})
         ctx.nontrivial(("overstrip", host))
+    # a host that is nothing but a public suffix has no suffix to ignore: the page must keep a host and its path
+    for host in ("co.uk", "github.io", "com", "httpbin.org", "blogspot.com", "pvt.k12.ma.us", "foo.ck"):
+        for tail in ("/get", "/x?a=1", "", "/a/b/"):
+            for form in ("http://%s%s", "%s%s", "https://%s:8080%s"):
+                u = form % (host, tail)
+                out = fp(fn, u, {"strip_suffix": True})
+                ctx.ev()
+                ctx.count("overstrip-checked")
+                ctx.count("bare-suffix-host-with-strip_suffix")
+                want = host + (tail[:-1] if tail.endswith("/") else tail)
+                if out != want:
+                    ctx.viol("C06:strip_suffix:bare-suffix-host", {"url": u, "options": "strip_suffix", "want": want}, {"out": out})
 
 
 def run(ctx):
